@@ -86,7 +86,7 @@ var allocStatuses = []api.TrackerStatus{
 	api.TrackerStatusPinning, api.TrackerStatusPinQueued, api.TrackerStatusUnexpectedlyUnpinned, api.TrackerStatusClusterError,
 }
 
-const ruleGlobal = "3 real Clusters on loopback hosts over a shared fake consensus, scripted trackers, optionally a 4th member nobody can reach; pinset of 0-4 CIDs (allocated to a drawn subset of the members, or pinned everywhere, or a meta pin), per allocated live peer a drawn status; the caller is any live member, optionally in follower mode; Cluster.Status(c) for every universe CID and Cluster.StatusAll(f) for a drawn filter; oracle from the statement: one entry per peer, allocated peers carry their own report or cluster_error when unreachable, other members remote, unknown CID unpinned for every member, filtered listing = members' reports matching the filter; non-trivial = a pin allocated to a strict subset of the members or an unreachable member; distinct by case"
+const ruleGlobal = "3 real Clusters on loopback hosts over a shared fake consensus, scripted trackers, optionally a 4th member nobody can reach; pinset of 0-4 CIDs (allocated to a drawn subset of the members, or pinned everywhere (optionally still carrying an allocation list), or a meta pin), per allocated live peer a drawn status; the caller is any live member, optionally in follower mode; Cluster.Status(c) for every universe CID and Cluster.StatusAll(f) for a drawn filter; oracle from the statement: one entry per peer, allocated peers carry their own report or cluster_error when unreachable, other members remote, unknown CID unpinned for every member, filtered listing = members' reports matching the filter; non-trivial = a pin allocated to a strict subset of the members or an unreachable member; distinct by case"
 
 func TestGlobalView(t *testing.T) {
 	ctx := context.Background()
@@ -144,6 +144,19 @@ func TestGlobalView(t *testing.T) {
 			case "everywhere":
 				pin.ReplicationFactorMin, pin.ReplicationFactorMax = -1, -1
 				sp.alloc = members
+				// entries written by older releases, by an import or through the
+				// adder may carry a (meaningless) allocation list as well
+				if rapid.Bool().Draw(t, "staleAllocs") {
+					mask := rapid.IntRange(1, (1<<len(members))-1).Draw(t, "staleMask")
+					for j, m := range members {
+						if mask&(1<<j) != 0 {
+							pin.Allocations = append(pin.Allocations, m)
+						}
+					}
+					if len(pin.Allocations) < len(members) {
+						nontrivial = true
+					}
+				}
 			case "meta":
 				pin.Type = api.MetaType
 				pin.ReplicationFactorMin, pin.ReplicationFactorMax = -1, -1
